@@ -276,6 +276,28 @@ def run(case, obs):
         named3 = [i for i, v in enumerate(spec3["vars"]) if v[0] is not None]
         _compare(spec3, model, xs, S3, named3, obs, "encoding after extending the solved model")
         obs.event("enc.extended-model-compared")
+        if not obs.violations and len(S3) <= 150:
+            # the same sequence through the model's own entry point (whatever the model keeps between solves is in play):
+            # a fresh model, solved through the SAT path, extended, enumerated
+            try:
+                m2, xs2, _b2 = ocp.build(spec, _cp.Model)
+            except ocp.Unbuildable:
+                return
+            from vf.common import call, is_crash
+
+            _pass["on"] = True
+            try:
+                r0 = call(obs, m2.solve, what="Model.solve(sat) before extending", budget=100_000_000, solver="sat")
+            finally:
+                _pass["on"] = False
+            if is_crash(r0):
+                return
+            try:
+                ocp.extend(spec, m2, xs2, ext["vars"], ext["cons"])
+            except ocp.Unbuildable:
+                return
+            _decoded_enumeration(spec3, m2, S3, named3, obs)
+            obs.event("enc.extended-model-enumerated-through-solve")
 
 
 def shrink(case):
